@@ -190,6 +190,7 @@ func (sp *SAMLServiceProvider) decryptAssertions(el *etree.Element) error {
 		}
 
 		el.AddChild(doc.Root())
+		verifPoint("decrypt.ok", int64(len(raw)), 0)
 		return nil
 	}
 
@@ -277,6 +278,7 @@ func (sp *SAMLServiceProvider) ValidateEncodedResponse(encodedResponse string) (
 	// just unmarshal the untrusted el
 
 	if sp.SkipSignatureValidation {
+		verifPoint("resp.skip", 0, 0)
 		err = xmlUnmarshalElement(unverifiedResponse, decodedResponse)
 		if err != nil {
 			return nil, fmt.Errorf("unable to unmarshal response: %v", err)
@@ -305,6 +307,7 @@ func (sp *SAMLServiceProvider) ValidateEncodedResponse(encodedResponse string) (
 		// good case, no errors when verifying signature
 		// 1. Response is signed
 		// optionally decrypt each assertion
+		verifPoint("resp.signedroot", 0, 0)
 		err = sp.decryptAssertions(signedResponseEl)
 		if err != nil {
 			return nil, err
@@ -329,6 +332,7 @@ func (sp *SAMLServiceProvider) ValidateEncodedResponse(encodedResponse string) (
 	// unsigned response but have some signed Assertions
 	// unmarshal into decodedResponse,
 
+	verifPoint("resp.unsignedroot", 0, 0)
 	err = xmlUnmarshalElement(unverifiedResponse, decodedResponse)
 	if err != nil {
 		return nil, err
@@ -378,6 +382,7 @@ func (sp *SAMLServiceProvider) ValidateEncodedResponse(encodedResponse string) (
 		}
 
 		decodedAssertion.SignatureValidated = true
+		verifPoint("assertion.verified", 0, 0)
 
 		// now add it to decodedResponse
 		decodedResponse.Assertions = append(decodedResponse.Assertions, *decodedAssertion)
@@ -443,6 +448,7 @@ func maybeDeflate(data []byte, maxSize int64, decoder func([]byte) error) error 
 		return err
 	}
 
+	verifPoint("inflate", int64(len(deflated)), maxSize)
 	if int64(len(deflated)) > maxSize {
 		return fmt.Errorf("deflated response exceeds maximum size of %d bytes", maxSize)
 	}
@@ -521,6 +527,7 @@ func (sp *SAMLServiceProvider) ValidateEncodedLogoutResponsePOST(encodedResponse
 		} else if el == nil {
 			return nil, fmt.Errorf("missing transformed logout response")
 		} else {
+			verifPoint("logoutresp.sig", 0, 0)
 			responseSignatureValidated = true
 		}
 	}
